@@ -36,6 +36,36 @@ static void omp_case(int kind) {
   }
 }
 
+/* factorisations whose Four-Russians base case has more than 512 rows below a pivot block (its row loops are where an
+ * OpenMP work-sharing construct would go), tall and narrow so that the trace validation stays cheap */
+static void omp_ple_case(int which) {
+  vh_ev_t e;
+  int m = vh_pick((int[]){700, 1100, 1300}, 3), n = vh_pick((int[]){40, 70, 100, 130}, 4);
+  mzd_t *A = vh_new(m, n);
+  vh_fill_profile(A, vh_pick((int[]){0, 0, 1, 2}, 4));
+  mzp_t *P = mzp_init(m), *Q = mzp_init(n);
+  int k = vh_pick((int[]){0, 3, 5, 8}, 4);
+  static const char *nm[] = {"ple", "pluq", "_ple_russian", "_pluq_russian"};
+  vh_begin(&e, nm[which]);
+  vh_pi(&e, "cutoff", 0); vh_pi(&e, "k", k); vh_pi(&e, "big", 0); vh_pi(&e, "isple", which == 0 || which == 2);
+  vh_opnd(&e, "A", 'b', A);
+  vh_pre(&e);
+  if (VH_CALL(&e)) {
+    switch (which) {
+    case 0: e.ret = mzd_ple(A, P, Q, 0); break;
+    case 1: e.ret = mzd_pluq(A, P, Q, 0); break;
+    case 2: e.ret = _mzd_ple_russian(A, P, Q, k); break;
+    default: e.ret = _mzd_pluq_russian(A, P, Q, k); break;
+    }
+  }
+  VH_END(&e);
+  vh_pa(&e, "P", P->values, m);
+  vh_pa(&e, "Q", Q->values, n);
+  vh_post(&e);
+  mzp_free(P); mzp_free(Q);
+  vh_free_all();
+}
+
 /* elimination whose (last) block holds t*k - d pivots: the parallel row loop of EACH of the six mzd_process_rowsN variants
  * runs over more than 512 rows (static chunks on several threads) */
 static void omp_elim_tables_case(int t, int k, int lead) {
@@ -65,6 +95,13 @@ int fam_omp(const vh_args_t *a) {
     VH_CASE_END
   }
   long sidx = ncases;
+  for (int rep = 0; rep < (a->tier ? 12 : 4); rep++, sidx++) {
+    if (!VH_SHARD(a, sidx)) continue;
+    vh_case_seed(a, sidx);
+    VH_CASE(sidx)
+    omp_ple_case(rep % 4);
+    VH_CASE_END
+  }
   for (int rep = 0; rep < (a->tier ? 4 : 1); rep++)
     for (int t = 1; t <= 6; t++, sidx++) {
       if (!VH_SHARD(a, sidx)) continue;
